@@ -23,7 +23,8 @@ RULE = ("Client-side history of two events per case: s = encode(m, G, v, mode, t
         "classes empty/len1-3/zeros/ones/leading zeros/trailing 1/2^n+-1/odd/random; element types int64/int32/int8/"
         "uint8/list; tables none/random/constant; check lengths 0,1,2,5,33 and random 1..70. A case is non-trivial when the message is "
         "non-empty and (the graph has >= 2 distinct out-degrees, or a table, or a check is used); distinct = distinct "
-        "canonical hash of (graph, start, message, mode, table, check length, dtype).")
+        "canonical hash of (graph, start, message, mode, table, check length, dtype)."
+        ' Also: messages beyond 2100 bits under the int<->str trap, buffer twins (uint8 bytes of a short int64 message), decimal-round values d*10^e, accessors in Fortran / strided layout, widths as numpy int64/uint16/uint64, start vertices as numpy.int64, need_path / verbose on, and edit sequences in which one accessor object and one table object are reused while the accessor is overwritten in place between round trips.')
 ASSUMPTIONS = ["message element types limited to int64/int32/int8/uint8 arrays and Python int lists (numpy bool arrays "
                "are not a supported message type)"]
 
